@@ -72,8 +72,12 @@ def run(ctx, rep):
     for v, o, w in VERIFY:
         allv += get(prog, v)
     # candidates for the fixpoint: everything reachable from the verify entry points
+    # every function is analysed with its private helpers folded in (a comparison extracted into
+    # `fn macs_match(a, b)` is still the verify function's comparison)
+    from ..inline import inline
     seen = prog.reach_fns(allv)
-    cands = [prog.by_key[k] for k in seen if returns_result(prog.by_key[k])]
+    views = {k: inline(prog, prog.by_key[k]) for k in seen}
+    cands = [views[k] for k in seen if returns_result(prog.by_key[k])]
     auth, results = auth_fixpoint(prog, cands, prim_atoms)
     n = 0
     for v, o, width in VERIFY:
@@ -91,7 +95,7 @@ def run(ctx, rep):
                     "; ".join("exit %s via %s" % (f.loc(b), cm.fmt_path(f, p)) for b, p in r.bad_exits) or "no comparison found"))
             rep.ob("AUTH", name, ok, detail, loc=f.loc())
             # locate the root comparison(s) under this verify function
-            roots = [g for g in (prog.by_key[k] for k in prog.reach_fns([f])) if prim_atoms(g) and g.key in auth]
+            roots = [g for g in (views.get(k) or inline(prog, prog.by_key[k]) for k in prog.reach_fns([f])) if prim_atoms(g) and g.key in auth]
             rep.ob("ROOT", name, bool(roots), "%d comparing function(s) reached: %s" % (len(roots), [g.path for g in roots][:3]), loc=f.loc())
             for g in roots:
                 for c in prim_atoms(g):
